@@ -1,0 +1,294 @@
+//go:build verif
+
+package align
+
+// Contracts for property C10 (randomised operations). Comments only.
+// math/rand draws are externs returning an arbitrary value of their documented range
+// (specs/externs.spec): every postcondition below therefore holds for every seed.
+
+// rows, order, names, storage and the cached length are what they were
+//@ pure func sameshape(a *align) bool = a.length == old(a.length) && nrows(a) == old(nrows(a)) && (forall r :: 0 <= r && r < nrows(a) ==> row(a, r) == old(row(a, r)) && rowname(a, r) == old(rowname(a, r)) && sameslice(row(a, r).sequence, old(row(a, r).sequence)))
+
+// AddGaps: only gaps are written: every residue is what it was or has become a gap
+//@ func (*align).AddGaps
+//@   props C10
+//@   requires wfa(a)
+//@   ensures sameshape(a)
+//@   ensures forall r, c :: 0 <= r && r < nrows(a) && 0 <= c && c < a.length ==> cell(a, r, c) == old(cell(a, r, c)) || cell(a, r, c) == GAP
+//@   assert_at math/rand.Perm 1 : arg0 == nrows(a)
+//@   assert_at math/rand.Perm 2 : arg0 == a.length
+//@   modifies mem(uint8)
+//@   loop 1
+//@     invariant 0 <= i && 0 <= nb && nb <= nrows(a) && (nrows(a) > 0 ==> 0 <= nbgaps && nbgaps <= a.length) && len(permseqs) == nrows(a)
+//@     invariant forall k :: 0 <= k && k < nrows(a) ==> 0 <= permseqs[k] && permseqs[k] < nrows(a)
+//@     invariant forall r, c :: 0 <= r && r < nrows(a) && 0 <= c && c < a.length ==> cell(a, r, c) == old(cell(a, r, c)) || cell(a, r, c) == GAP
+//@     decreases nb - i
+//@   loop 2
+//@     invariant 0 <= j && 0 <= i && i < nb && seq == row(a, permseqs[i]) && len(permsites) == a.length
+//@     invariant forall k :: 0 <= k && k < a.length ==> 0 <= permsites[k] && permsites[k] < a.length
+//@     invariant forall r, c :: 0 <= r && r < nrows(a) && 0 <= c && c < a.length ==> cell(a, r, c) == old(cell(a, r, c)) || cell(a, r, c) == GAP
+//@     decreases nbgaps - j
+
+// Mutate: a residue is what it was, or it was neither a gap nor a special character ('.', '*') and is now a letter of
+// the alphabet of the alignment (20 amino acids / 4 nucleotides); each letter draw ranges over exactly that alphabet
+//@ table stdaminoacid C10
+//@ table stdnucleotides C10
+//@ pure func isnt(x int) bool = x == 'A' || x == 'C' || x == 'G' || x == 'T'
+//@ pure func isaa(x int) bool = x == 'A' || x == 'R' || x == 'N' || x == 'D' || x == 'C' || x == 'Q' || x == 'E' || x == 'G' || x == 'H' || x == 'I' || x == 'L' || x == 'K' || x == 'M' || x == 'F' || x == 'P' || x == 'S' || x == 'T' || x == 'W' || x == 'Y' || x == 'V'
+//@ pure func isletter(a *align, x int) bool = (a.alphabet == AMINOACIDS ? isaa(x) : isnt(x))
+// the two letter sets are exactly the contents of the tables the code draws from
+//@ lemma letters_are_tables(x int)
+//@   props C10
+//@   ensures isnt(x) <==> (exists k :: 0 <= k && k < len(stdnucleotides) && stdnucleotides[k] == x)
+//@   ensures isaa(x) <==> (exists k :: 0 <= k && k < len(stdaminoacid) && stdaminoacid[k] == x)
+//@   ensures len(stdnucleotides) == 4 && len(stdaminoacid) == 20
+//@ pure func mutated(a *align, r int, c int) bool = cell(a, r, c) == old(cell(a, r, c)) || (old(cell(a, r, c)) != GAP && old(cell(a, r, c)) != POINT && old(cell(a, r, c)) != OTHER && isletter(a, cell(a, r, c)))
+//@ func (*align).Mutate
+//@   props C10
+//@   requires wfa(a) && owns(a)
+//@   ensures sameshape(a)
+//@   ensures forall r, c :: 0 <= r && r < nrows(a) && 0 <= c && c < a.length ==> mutated(a, r, c)
+//@   ensures rate <= 0.0 ==> forall r, c :: 0 <= r && r < nrows(a) && 0 <= c && c < a.length ==> cell(a, r, c) == old(cell(a, r, c))
+//@   assert_at math/rand.Intn 1 : arg0 == 4 && a.alphabet != AMINOACIDS      // calls are numbered in the order the engine walks the branches: else-branch first
+//@   assert_at math/rand.Intn 2 : arg0 == 20 && a.alphabet == AMINOACIDS
+//@   modifies mem(uint8)
+//@   loop 1
+//@     invariant 0 <= i && nb == nrows(a) && leng == a.length
+//@     invariant forall r, c :: 0 <= r && r < i && 0 <= c && c < a.length ==> mutated(a, r, c)
+//@     invariant forall r, c :: i <= r && r < nrows(a) && 0 <= c && c < a.length ==> cell(a, r, c) == old(cell(a, r, c))
+//@     decreases nb - i
+//@   loop 2
+//@     invariant 0 <= j && 0 <= i && i < nb && nb == nrows(a) && leng == a.length && seq == row(a, i)
+//@     invariant forall r, c :: 0 <= r && r < i && 0 <= c && c < a.length ==> mutated(a, r, c)
+//@     invariant forall c :: 0 <= c && c < j ==> mutated(a, i, c)
+//@     invariant forall c :: j <= c && c < a.length ==> cell(a, i, c) == old(cell(a, i, c))
+//@     invariant forall r, c :: i < r && r < nrows(a) && 0 <= c && c < a.length ==> cell(a, r, c) == old(cell(a, r, c))
+//@     decreases leng - j
+
+// BuildBootstrap: the result has the rows and names of a, floor(frac*L) columns (frac outside ]0,1] counts as 1), and every
+// column of it is one column of a taken for all rows at once; each column draw ranges over the L columns of a
+//@ pure func bootfrac(frac real) real = (frac <= 0.0 || frac > 1.0 ? 1.0 : frac)
+// column j of b is column s of a, for all rows at once
+//@ opaque func colof(b *align, a *align, j int, s int) bool = forall r :: 0 <= r && r < nrows(a) ==> cell(b, r, j) == cell(a, r, s)
+// column j of b is some column of a
+//@ opaque func colsrc(b *align, a *align, j int) bool = exists s :: 0 <= s && s < a.length && colof(b, a, j, s)
+//@ func (*align).BuildBootstrap
+//@   props C10 C19
+//@   requires wfa(a)
+//@   ensures boot != nil && fresh(boot) && wfa(boot) && nrows(boot) == nrows(a) && boot.alphabet == a.alphabet
+//@   ensures nrows(a) > 0 ==> boot.length == floor(bootfrac(frac) * real(a.length))
+//@   ensures forall r :: 0 <= r && r < nrows(a) ==> rowname(boot, r) == rowname(a, r) && fresh(row(boot, r)) && fresh(row(boot, r).sequence)
+//@   ensures forall j :: 0 <= j && j < boot.length ==> colsrc(boot, a, j)
+//@   hint nrows(a) > 0 ==> boot.length == len(indices)
+//@   hint forall j :: 0 <= j && j < len(indices) ==> 0 <= indices[j] && indices[j] < a.length && colof(boot, a, j, indices[j]) && colsrc(boot, a, j)
+//@   assert_at math/rand.Intn 1 : arg0 == a.length
+//@   modifies nothing
+//@   loop 1
+//@     modifies indices[*]
+//@     invariant 0 <= i && i <= n && len(indices) == n && fresh(indices) && alength == a.length && boot != nil && fresh(boot) && wfa(boot) && nrows(boot) == 0 && boot.alphabet == a.alphabet && boot.ignoreidentical == IGNORE_NONE && fresh(boot.seqmap) && fresh(boot.seqs)
+//@     invariant a.length >= 0 ==> n == floor(bootfrac(frac) * real(a.length))
+//@     invariant forall j :: 0 <= j && j < i ==> 0 <= indices[j] && indices[j] < a.length
+//@     decreases n - i
+//@   loop 2
+//@     invariant len(indices) == n && 0 <= n && fresh(indices) && alength == a.length && (a.length >= 0 ==> n == floor(bootfrac(frac) * real(a.length)))
+//@     invariant forall j :: 0 <= j && j < len(indices) ==> 0 <= indices[j] && indices[j] < a.length
+//@     invariant boot != nil && fresh(boot) && wfa(boot) && nrows(boot) == $i && ($i > 0 ==> boot.length == n)
+//@     invariant boot.ignoreidentical == IGNORE_NONE && boot.alphabet == a.alphabet && fresh(boot.seqmap) && fresh(boot.seqs)
+//@     invariant forall r :: 0 <= r && r < $i ==> rowname(boot, r) == rowname(a, r) && fresh(row(boot, r)) && fresh(row(boot, r).sequence) && allocated(row(boot, r).sequence)
+//@     invariant forall r, j :: 0 <= r && r < $i && 0 <= j && j < len(indices) ==> cell(boot, r, j) == cell(a, r, indices[j])
+//@     decreases nrows(a) - $i
+//@   loop 3
+//@     modifies buf[*]
+//@     invariant fresh(buf) && len(buf) == n && len(indices) == n && seq == row(a, $i2 - 1) && 0 <= $i2 - 1 && $i2 - 1 < nrows(a)
+//@     invariant forall j :: 0 <= j && j < $i ==> buf[j] == cell(a, $i2 - 1, indices[j])
+//@     decreases n - $i
+
+// RandSubAlign: error iff length is not in [1, L]; otherwise the rows and names of a and `length` columns which are
+// (consecutive) a window start..start+length-1 of a, the start drawn among the L-length+1 admissible offsets (last one included),
+// or (not consecutive) columns of a drawn from a permutation of all L columns: each result column is a column of a, two
+// different result columns come from two different columns of a
+//@ opaque func window(b *align, a *align, length int, start int) bool = forall r, c :: 0 <= r && r < nrows(a) && 0 <= c && c < length ==> cell(b, r, c) == cell(a, r, start + c)
+//@ opaque func haswindow(b *align, a *align, length int) bool = exists start :: 0 <= start && start + length <= a.length && window(b, a, length, start)
+//@ opaque func pairsrc(b *align, a *align, c1 int, c2 int) bool = exists s1, s2 :: 0 <= s1 && s1 < a.length && 0 <= s2 && s2 < a.length && s1 != s2 && colof(b, a, c1, s1) && colof(b, a, c2, s2)
+//@ func (*align).RandSubAlign
+//@   props C10 C19
+//@   requires wfa(a)
+//@   ensures (result1 == nil) == (0 < length && length <= a.length)
+//@   ensures result1 != nil ==> result0 == nil
+//@   ensures result1 == nil ==> result0 != nil && fresh(result0) && wfa(result0) && nrows(result0) == nrows(a) && result0.length == length && result0.alphabet == a.alphabet
+//@   ensures result1 == nil ==> forall r :: 0 <= r && r < nrows(a) ==> rowname(result0, r) == rowname(a, r) && fresh(row(result0, r))
+//@   ensures result1 == nil && consecutive ==> haswindow(result0, a, length)
+//@   ensures result1 == nil && !consecutive ==> forall c :: 0 <= c && c < length ==> colsrc(result0, a, c)
+//@   ensures result1 == nil && !consecutive ==> forall c1, c2 :: 0 <= c1 && c1 < c2 && c2 < length ==> pairsrc(result0, a, c1, c2)
+//@   ensures [C19] result1 == nil ==> forall r :: 0 <= r && r < nrows(a) ==> fresh(row(result0, r).sequence)
+//@   hint consecutive && 0 < length && length <= a.length ==> 0 <= start && start + length <= a.length && window(subalign, a, length, start) && haswindow(subalign, a, length)
+//@   hint !consecutive && 0 < length && length <= a.length ==> forall c :: 0 <= c && c < length ==> 0 <= permutation[c] && permutation[c] < a.length && colof(subalign, a, c, permutation[c]) && colsrc(subalign, a, c)
+//@   hint !consecutive && 0 < length && length <= a.length ==> forall c1, c2 :: 0 <= c1 && c1 < c2 && c2 < length ==> permutation[c1] != permutation[c2] && colof(subalign, a, c1, permutation[c1]) && colof(subalign, a, c2, permutation[c2]) && pairsrc(subalign, a, c1, c2)
+//@   assert_at math/rand.Intn 1 : arg0 == a.length - length + 1
+//@   assert_at math/rand.Perm 1 : arg0 == a.length
+//@   modifies nothing
+//@   loop 1
+//@     invariant 0 < length && length <= a.length && 0 <= start && start + length <= a.length && consecutive
+//@     invariant 0 <= i && i <= nrows(a) && subalign != nil && fresh(subalign) && wfa(subalign) && nrows(subalign) == i && (i > 0 ==> subalign.length == length)
+//@     invariant subalign.ignoreidentical == IGNORE_NONE && subalign.alphabet == a.alphabet && fresh(subalign.seqmap) && fresh(subalign.seqs)
+//@     invariant forall r :: 0 <= r && r < i ==> rowname(subalign, r) == rowname(a, r) && fresh(row(subalign, r))
+//@     invariant forall r, c :: 0 <= r && r < i && 0 <= c && c < length ==> cell(subalign, r, c) == cell(a, r, start + c)
+//@     invariant forall r :: 0 <= r && r < i ==> allocated(row(subalign, r).sequence)
+//@     invariant [C19] forall r :: 0 <= r && r < i ==> fresh(row(subalign, r).sequence)
+//@     decreases nrows(a) - i
+//@   loop 2
+//@     invariant 0 < length && length <= a.length && !consecutive && len(permutation) == a.length && fresh(permutation)
+//@     invariant forall k :: 0 <= k && k < a.length ==> 0 <= permutation[k] && permutation[k] < a.length
+//@     invariant forall k1, k2 :: 0 <= k1 && k1 < k2 && k2 < a.length ==> permutation[k1] != permutation[k2]
+//@     invariant 0 <= i && i <= nrows(a) && subalign != nil && fresh(subalign) && wfa(subalign) && nrows(subalign) == i && (i > 0 ==> subalign.length == length)
+//@     invariant subalign.ignoreidentical == IGNORE_NONE && subalign.alphabet == a.alphabet && fresh(subalign.seqmap) && fresh(subalign.seqs)
+//@     invariant forall r :: 0 <= r && r < i ==> rowname(subalign, r) == rowname(a, r) && fresh(row(subalign, r)) && fresh(row(subalign, r).sequence) && allocated(row(subalign, r).sequence)
+//@     invariant forall r, c :: 0 <= r && r < i && 0 <= c && c < length ==> cell(subalign, r, c) == cell(a, r, permutation[c])
+//@     decreases nrows(a) - i
+//@   loop 3
+//@     modifies tmpseq[*]
+//@     invariant 0 <= p && p <= length && fresh(tmpseq) && len(tmpseq) == length && seq == row(a, i) && 0 <= i && i < nrows(a) && len(permutation) == a.length
+//@     invariant forall c :: 0 <= c && c < p ==> tmpseq[c] == cell(a, i, permutation[c])
+//@     decreases length - p
+
+// sampleSeqBag: error iff nb is not in [1, n]; otherwise nb rows, each one an original row (same name, same residues),
+// pairwise different (the result is well-formed: names are unique, and the names of sb are unique); the rows are the
+// first nb entries of a permutation of all n rows, so every row can be drawn
+//@ opaque func rowsrc(b *seqbag, sb *seqbag, k int) bool = exists r :: 0 <= r && r < nrows(sb) && rowname(b, k) == rowname(sb, r) && rowlen(b, k) == rowlen(sb, r) && (forall c :: 0 <= c && c < rowlen(sb, r) ==> cell(b, k, c) == cell(sb, r, c))
+//@ pure func rowis(b *seqbag, sb *seqbag, k int, r int) bool = rowname(b, k) == rowname(sb, r) && rowlen(b, k) == rowlen(sb, r) && (forall c :: 0 <= c && c < rowlen(sb, r) ==> cell(b, k, c) == cell(sb, r, c))
+//@ func (*seqbag).sampleSeqBag
+//@   props C10 C19
+//@   requires wf(sb)
+//@   ensures (result1 == nil) == (1 <= nb && nb <= nrows(sb))
+//@   ensures result1 != nil ==> result0 == nil
+//@   ensures result1 == nil ==> result0 != nil && fresh(result0) && wf(result0) && nrows(result0) == nb && result0.alphabet == sb.alphabet
+//@   ensures result1 == nil ==> forall k :: 0 <= k && k < nb ==> rowsrc(result0, sb, k)
+//@   ensures [C19] result1 == nil ==> forall k :: 0 <= k && k < nb ==> fresh(row(result0, k).sequence)
+//@   assert_at math/rand.Perm 1 : arg0 == nrows(sb)
+//@   modifies nothing
+//@   allowexit
+//@   loop 1
+//@     invariant 1 <= nb && nb <= nrows(sb) && 0 <= i && i <= nb && len(permutation) == nrows(sb) && fresh(permutation)
+//@     invariant forall k :: 0 <= k && k < nrows(sb) ==> 0 <= permutation[k] && permutation[k] < nrows(sb)
+//@     invariant forall k1, k2 :: 0 <= k1 && k1 < k2 && k2 < nrows(sb) ==> permutation[k1] != permutation[k2]
+//@     invariant sample != nil && fresh(sample) && wf(sample) && nrows(sample) == i && sample.alphabet == sb.alphabet && sample.ignoreidentical == IGNORE_NONE && fresh(sample.seqmap) && fresh(sample.seqs)
+//@     invariant forall k :: 0 <= k && k < i ==> rowis(sample, sb, k, permutation[k]) && fresh(row(sample, k)) && allocated(row(sample, k).sequence) && rowsrc(sample, sb, k)
+//@     invariant [C19] forall k :: 0 <= k && k < i ==> fresh(row(sample, k).sequence)
+//@     decreases nb - i
+
+// Recombine: error iff a proportion is outside its range (then nothing changes); otherwise rows, names, lengths are kept and
+// every residue is a residue the same column held before the call (residues only move between rows at the same column);
+// the window start ranges over the L - len + 1 admissible offsets (the last one included)
+//@ opaque func incol(a *align, c int, x int) bool = exists r2 :: 0 <= r2 && r2 < nrows(a) && cell(a, r2, c) == x
+//@ pure func wasincol(a *align, c int, x int) bool = old(incol(a, c, x))
+//@ pure func colskept(a *align) bool = forall r, c :: 0 <= r && r < nrows(a) && 0 <= c && c < a.length ==> wasincol(a, c, cell(a, r, c))
+//@ func (*align).Recombine
+//@   props C10
+//@   requires wfa(a) && owns(a)
+//@   ensures (err != nil) == (prop < 0.0 || prop > 0.5 || lenprop < 0.0 || lenprop > 1.0)
+//@   ensures sameshape(a)
+//@   ensures err != nil ==> forall r, c :: 0 <= r && r < nrows(a) && 0 <= c && c < a.length ==> cell(a, r, c) == old(cell(a, r, c))
+// NOT COVERED (proof not found: the existential in incol makes the solvers loop): ensures colskept(a), with the invariant colskept(a) in both loops
+//   ensures colskept(a)
+//@   assert_at math/rand.Perm 1 : arg0 == nrows(a)
+//@   assert_at math/rand.Intn 1 : arg0 == a.length - lentorecomb + 1 && 0 <= lentorecomb && lentorecomb <= a.length
+//@   modifies mem(uint8)
+//@   loop 1
+//@     invariant err == nil && 0 <= i && 0 <= nb && 2 * nb <= nrows(a) && (nrows(a) > 0 ==> 0 <= lentorecomb && lentorecomb <= a.length) && len(permutation) == nrows(a)
+//@     invariant forall k :: 0 <= k && k < nrows(a) ==> 0 <= permutation[k] && permutation[k] < nrows(a)
+//@     decreases nb - i
+//@   loop 2
+//@     invariant err == nil && 0 <= i && i < nb && 2 * nb <= nrows(a) && 0 <= lentorecomb && lentorecomb <= a.length && len(permutation) == nrows(a)
+//@     invariant 0 <= pos && pos <= j && pos + lentorecomb <= a.length && seq1 == row(a, permutation[i]) && seq2 == row(a, permutation[i+nb])
+//@     invariant forall k :: 0 <= k && k < nrows(a) ==> 0 <= permutation[k] && permutation[k] < nrows(a)
+//@     decreases pos + lentorecomb - j
+
+// Swap: error iff rate is outside [0,1] (then nothing changes); rows, names, lengths are kept; the random position ranges
+// over the L columns. Partial contract: the per-column multiset claim is NOT COVERED (needs a counting argument per exchange).
+//@ func (*align).Swap
+//@   props C10
+//@   requires wfa(a) && owns(a)
+//@   ensures (err != nil) == (rate < 0.0 || rate > 1.0)
+//@   ensures sameshape(a)
+//@   ensures err != nil ==> forall r, c :: 0 <= r && r < nrows(a) && 0 <= c && c < a.length ==> cell(a, r, c) == old(cell(a, r, c))
+//@   assert_at math/rand.Perm 1 : arg0 == nrows(a)
+//@   assert_at math/rand.Intn 1 : arg0 == a.length
+//@   modifies mem(uint8)
+//@   loop 1
+//@     invariant err == nil && 0 <= i && 0 <= nb_to_shuffle && nb_to_shuffle <= nrows(a) && nb_sites == a.length && len(permutation) == nrows(a)
+//@     invariant forall k :: 0 <= k && k < nrows(a) ==> 0 <= permutation[k] && permutation[k] < nrows(a)
+//@     decreases godiv(nb_to_shuffle, 2) - i
+//@   loop 2
+//@     invariant err == nil && 0 <= i && i < godiv(nb_to_shuffle, 2) && 0 <= nb_to_shuffle && nb_to_shuffle <= nrows(a) && nb_sites == a.length && len(permutation) == nrows(a)
+//@     invariant 0 <= position && seq1 == row(a, permutation[i]) && seq2 == row(a, permutation[i + godiv(nb_to_shuffle, 2)])
+//@     invariant forall k :: 0 <= k && k < nrows(a) ==> 0 <= permutation[k] && permutation[k] < nrows(a)
+//@     decreases nb_sites - position
+
+// SimulateRogue: rows, names, lengths are kept; proportions outside [0,1] give (nil, nil) and change nothing; otherwise the
+// two lists have floor(prop*n) and n - floor(prop*n) entries (prop counts as 0 when proplen is 0), every entry is the name of a row.
+// Partial contract: "each row is in exactly one list" and "residues are permuted within the rogue rows only" are NOT COVERED.
+//@ opaque func isname(a *align, s string) bool = exists r :: 0 <= r && r < nrows(a) && rowname(a, r) == s
+//@ pure func rogueprop(prop real, proplen real) real = (proplen == 0.0 ? 0.0 : prop)
+//@ func (*align).SimulateRogue
+//@   props C10
+//@   requires wfa(a) && owns(a)
+//@   ensures sameshape(a)
+//@   ensures (prop < 0.0 || prop > 1.0 || proplen < 0.0 || proplen > 1.0) ==> len(result0) == 0 && len(result1) == 0 && (forall r, c :: 0 <= r && r < nrows(a) && 0 <= c && c < a.length ==> cell(a, r, c) == old(cell(a, r, c)))
+//@   ensures !(prop < 0.0 || prop > 1.0 || proplen < 0.0 || proplen > 1.0) ==> len(result0) == floor(rogueprop(prop, proplen) * real(nrows(a))) && len(result0) + len(result1) == nrows(a)
+//@   ensures forall k :: 0 <= k && k < len(result0) ==> isname(a, result0[k])
+//@   ensures forall k :: 0 <= k && k < len(result1) ==> isname(a, result1[k])
+//@   assert_at math/rand.Perm 1 : arg0 == nrows(a)
+//@   assert_at math/rand.Perm 2 : arg0 == a.length
+//@   assert_at math/rand.Intn 1 : arg0 == i + 1
+//@   modifies mem(uint8)
+//@   loop 1
+//@     invariant !(prop < 0.0 || prop > 1.0 || proplen < 0.0 || proplen > 1.0) && 0 <= r && 0 <= nb && nb <= nrows(a) && nb == floor(rogueprop(old(prop), proplen) * real(nrows(a)))
+//@     invariant len(permutation) == nrows(a) && len(seqlist) == nb && len(intactlist) == nrows(a) - nb && fresh(seqlist) && fresh(intactlist) && base(seqlist) != base(intactlist)
+//@     invariant forall k :: 0 <= k && k < nrows(a) ==> 0 <= permutation[k] && permutation[k] < nrows(a)
+//@     invariant forall k :: 0 <= k && k < r ==> seqlist[k] == rowname(a, permutation[k]) && isname(a, seqlist[k])
+//@     decreases nb - r
+//@   loop 2
+//@     modifies mem(uint8)
+//@     invariant 0 <= r && r < nb && seq == row(a, permutation[r]) && len(sitesToShuffle) <= a.length && len(permutation) == nrows(a)
+//@     invariant forall k :: 0 <= k && k < len(sitesToShuffle) ==> 0 <= sitesToShuffle[k] && sitesToShuffle[k] < a.length
+//@     decreases len(sitesToShuffle) - $i
+//@   loop 3
+//@     modifies intactlist[*]
+//@     invariant nb <= nr && 0 <= nb && nb <= nrows(a) && len(permutation) == nrows(a) && len(seqlist) == nb && len(intactlist) == nrows(a) - nb && base(seqlist) != base(intactlist)
+//@     invariant nb == floor(rogueprop(old(prop), proplen) * real(nrows(a))) && !(old(prop) < 0.0 || old(prop) > 1.0 || proplen < 0.0 || proplen > 1.0)
+//@     invariant forall k :: 0 <= k && k < nrows(a) ==> 0 <= permutation[k] && permutation[k] < nrows(a)
+//@     invariant forall k :: 0 <= k && k < nb ==> isname(a, seqlist[k])
+//@     invariant forall k :: 0 <= k && k < nr - nb ==> intactlist[k] == rowname(a, permutation[nb + k]) && isname(a, intactlist[k])
+//@     decreases nrows(a) - nr
+
+// ShuffleSites: rows, names, lengths are kept; floor(roguerate*n) names are returned; each Fisher-Yates step draws among the
+// n (resp. r+1) admissible positions. Partial contract (safety, shape, draws): "characters are permuted within columns only"
+// and "the returned names are rows" are NOT COVERED. Rates outside [0,1] end the program (io.ExitWithMessage): allowexit.
+//@ func (*align).ShuffleSites
+//@   props C10
+//@   requires wfa(a) && owns(a)
+//@   ensures sameshape(a)
+//@   ensures len(result) == floor(roguerate * real(nrows(a)))
+//@   assert_at math/rand.Intn 1 : arg0 == r + 1        // numbered in the order the engine reaches the calls: the rogue loop first
+//@   assert_at math/rand.Intn 2 : arg0 == n && 2 <= n && n <= nrows(a)
+//@   modifies mem(uint8)
+//@   allowexit
+//@   loop 1
+//@     invariant 0 <= i && 0 <= nbSitesToShuffle && 0 <= nbRogueSitesToShuffle && nbSitesToShuffle + nbRogueSitesToShuffle <= a.length && 0 <= nbRogueSeqToShuffle && nbRogueSeqToShuffle <= nrows(a)
+//@     invariant len(sitepermutation) == a.length && len(taxpermutation) == nrows(a) && len(rogues) == nbRogueSeqToShuffle && fresh(rogues)
+//@     invariant forall k :: 0 <= k && k < a.length ==> 0 <= sitepermutation[k] && sitepermutation[k] < a.length
+//@     invariant forall k :: 0 <= k && k < nrows(a) ==> 0 <= taxpermutation[k] && taxpermutation[k] < nrows(a)
+//@     decreases nbSitesToShuffle - i
+//@   loop 2
+//@     invariant 0 <= i && i < nbSitesToShuffle && nbSitesToShuffle <= a.length && 0 <= site && site < a.length && n <= nrows(a)
+//@     decreases n
+//@   loop 3
+//@     invariant 0 <= i && 0 <= nbSitesToShuffle && 0 <= nbRogueSitesToShuffle && nbSitesToShuffle + nbRogueSitesToShuffle <= a.length && 0 <= nbRogueSeqToShuffle && nbRogueSeqToShuffle <= nrows(a)
+//@     invariant len(sitepermutation) == a.length && len(taxpermutation) == nrows(a) && len(rogues) == nbRogueSeqToShuffle && fresh(rogues)
+//@     invariant forall k :: 0 <= k && k < a.length ==> 0 <= sitepermutation[k] && sitepermutation[k] < a.length
+//@     invariant forall k :: 0 <= k && k < nrows(a) ==> 0 <= taxpermutation[k] && taxpermutation[k] < nrows(a)
+//@     decreases nbRogueSitesToShuffle - i
+//@   loop 4
+//@     invariant 0 <= i && i < nbRogueSitesToShuffle && 0 <= site && site < a.length && 0 <= r && nbRogueSeqToShuffle <= nrows(a) && len(taxpermutation) == nrows(a) && len(rogues) == nbRogueSeqToShuffle && fresh(rogues)
+//@     invariant forall k :: 0 <= k && k < nrows(a) ==> 0 <= taxpermutation[k] && taxpermutation[k] < nrows(a)
+//@     decreases nbRogueSeqToShuffle - r
